@@ -14,7 +14,10 @@ MANIFEST = {
          "ids (callback exactly once); datagrams handed to the OS are an in-order duplicate-free subsequence of those "
          "submitted; try_send/try_send2 make no system call while requests are queued; every alloc'd receive buffer is "
          "handed back by exactly one non-chunk recv_cb (MMSG_FREE in recvmmsg mode); every uv__udp_recvmsg invocation "
-         "ends within 32 iterations for every buffer size. The model is tied to the working tree by running model and "
+         "ends within 32 iterations for every buffer size; send_cb status is 0 iff the datagram was handed to the OS, "
+         "UV_ECANCELED for requests still queued at close, otherwise the errno of the failed call that carried the "
+         "request; every datagram the kernel hands over is delivered by one recv_cb in order with the kernel's length, "
+         "sender and truncation flag. The model is tied to the working tree by running model and "
          "implementation on the same programs / outcome schedules and diffing every line, plus monitors that evaluate "
          "the property directly on what the real code did (raw receiver sockets, callbacks, getters).",
  "note": "Trusted: Lean kernel; clang/ASan/UBSan; the interposed system calls (forwarded with syscall(2) unless "
@@ -23,8 +26,8 @@ MANIFEST = {
          "uv__udp_sendmsgv, uv__udp_sendmsg1, try_send, try_send2, run_completed, finish_close, recvmsg, recvmmsg, "
          "recv_start/stop, close, uv_run phase order per handle. Not modelled: bind/connect/multicast options, "
          "non-Linux branches, send_cb == NULL, API calls on a closing handle (not generated), callbacks acting on "
-         "other handles. recv_payload_exact and 'status 0 iff handed to the OS' are covered by monitors and the "
-         "correspondence, not by a Lean theorem.",
+         "other handles, errno left over from earlier system calls (see the try_send2 bad-family lead). "
+         "send_cb_status uses two ghost fields of the model (klog, cancelled) that the driver does not print.",
  "design": "DESIGN.md §3 C10",
  "technique": "Lean 4 proof over executable model + correspondence (unit-include harness with scripted "
               "sendmmsg; whole-library harness with interposed syscalls and raw loopback receivers) + monitors",
